@@ -10,7 +10,8 @@ Why this exists (round 8, seeds C16-wav-close-returns-header-status, C16-tmpfile
 
 What is enumerated (deterministic; the seed picks the sample values and which encodings stand for a container)
   (1) for every container vlib/foreign.py can transform (AU, WAV, WAVEX, AIFF, SVX, CAF, W64, RF64, VOC, NIST): one sample-granular
-      encoding (thorough tier: two), EVERY transformation of the library-written base file, x mode {r, rw} x history {idle, read, read + seek, (rw) append}
+      encoding (thorough tier: two), EVERY transformation of the library-written base file (vlib/foreign.py) plus the chunk in front of
+      the audio grown by 2 / 4 / 6 bytes and a JUNK chunk of 8 / 10 / 14 bytes in all in front of it (`grow_variants`), x mode {r, rw} x history {idle, read, read + seek, (rw) append}
       x route {vio, path, fd1} in rotation.  Judged: the ledger (heap blocks, descriptors, temporary files) and `sf_close == 0` for every
       handle whose open succeeded (the existing clause of vlib/props/c16.py).  A variant the library refuses gives `open=NULL` and is
       judged as a failed open (nothing left behind).
@@ -38,18 +39,52 @@ def base_files(ctx, fmts):
         i = rng.randrange(len(lst))
         picks += [lst[i]] + ([lst[(i + 1 + len(lst) // 2) % len(lst)]] if len(lst) > 1 and ctx.tier != "quick" else [])
     scripts = []
+    strings = "".join("setstr h0 %d %s\n" % (t, v.hex()) for (t, v) in ((1, b"a title"), (3, b"other software"), (5, b"an odd comment.")))
     for k, f in enumerate(picks):
         ch = 1 + k % min(2, f.maxch)
         ty = "s16" if f.codec not in (0x06, 0x07) else "f32"
-        scripts.append(("c16f-base-%d" % k, "open h0 s0 w fmt=%08x ch=%d sr=8000\n%s\nclose h0\ndump s0\n"
-                        % (f.word, ch, S.w_line("h0", ty, "f", 23, S.rand_values(rng, ty, 23 * ch, "unit")))))
+        for rich in (0, 1):
+            # rich: strings set before the audio, so that the chunk in front of the audio is a TEXT chunk (LIST / INFO, ANNO, info …)
+            scripts.append(("c16f-base-%d-%d" % (k, rich), "open h0 s0 w fmt=%08x ch=%d sr=8000\n%s%s\nclose h0\ndump s0\n"
+                            % (f.word, ch, strings if rich else "", S.w_line("h0", ty, "f", 23, S.rand_values(rng, ty, 23 * ch, "unit")))))
     out = ctx.batch(scripts, clean=True)
     res = []
     for k, f in enumerate(picks):
-        d = [l for l in out.get("c16f-base-%d" % k, []) if "hex=" in l]
-        if d:
-            res.append((f, 1 + k % min(2, f.maxch), bytes.fromhex(d[-1].split("hex=")[-1].strip())))
+        for rich in (0, 1):
+            d = [l for l in out.get("c16f-base-%d-%d" % (k, rich), []) if "hex=" in l]
+            if d:
+                res.append((f, 1 + k % min(2, f.maxch), bytes.fromhex(d[-1].split("hex=")[-1].strip()), rich))
     return res
+
+
+def grow_variants(b):
+    """the chunk in front of the audio grown by 2 / 4 / 6 zero bytes (RIFF / RIFX / RF64 / FORM files): the header the library
+    regenerates for a read/write handle then differs from the one in the file by LESS than a chunk header, which no PAD chunk can
+    absorb -- the header writer's refusal path.  (Whether the reader accepts the grown chunk is the library's decision: a refused
+    variant is a failed open, judged as such.)"""
+    magic = b[:4]
+    if magic not in (b"RIFF", b"RIFX", b"RF64", b"FORM") or len(b) < 20:
+        return []
+    little = magic != b"RIFX" and magic != b"FORM"
+    form, ch = foreign.iff_parse(b, little)
+    ids = [c[0] for c in ch]
+    ai = next((ids.index(x) for x in (b"data", b"SSND", b"BODY") if x in ids), None)
+    if ai is None or ai == 0 or ids[ai - 1] == b"ds64":
+        return []
+    out = []
+    cands = [("grow%d-%s" % (g, ids[ai - 1].decode("latin1").strip() or "x"), ch[:ai - 1] + [(ids[ai - 1], ch[ai - 1][1] + bytes(g))] + ch[ai:], g) for g in (2, 4, 6)]
+    # ... and a chunk of 8 / 10 / 14 bytes in all (an empty or tiny JUNK chunk) in front of the audio
+    cands += [("tiny%d-before-audio" % k, ch[:ai] + [(b"JUNK", bytes(k))] + ch[ai:], 8 + k) for k in (0, 2, 6)]
+    for (tag, ch2, g) in cands:
+        nb = foreign.iff_build(magic, form, ch2, little)
+        if magic == b"RF64":
+            ds = ch[0][1]
+            nb = nb[:4] + b"\xff\xff\xff\xff" + nb[8:20] + int(int.from_bytes(ds[0:8], "little") + g).to_bytes(8, "little") + nb[28:]
+            # the data chunk keeps its 0xffffffff size field
+            k = nb.index(b"data", 12)
+            nb = nb[:k + 4] + b[b.index(b"data", 12) + 4:b.index(b"data", 12) + 8] + nb[k + 8:]
+        out.append((tag, nb))
+    return out
 
 
 HIST = {"r": ("idle", "read", "readseek"), "rw": ("idle", "read", "readseek", "append")}
@@ -61,10 +96,13 @@ def scenarios(ctx, C, fmts):
     scs = []
     st = ctx.notes.setdefault("foreign_close", {"base_files": 0, "variants": 0, "scenarios": 0, "tmpdir_scenarios": 0})
     n = 0
-    for (f, ch, b) in base_files(ctx, fmts):
+    for (f, ch, b, rich) in base_files(ctx, fmts):
         st["base_files"] += 1
         ty = "s16" if f.codec not in (0x06, 0x07) else "f32"
-        for (tag, nb) in [("asis", b)] + foreign.VARIANTS[f.major](b):
+        if rich and not grow_variants(b):
+            continue
+        variants = ([("asis", b)] + foreign.VARIANTS[f.major](b) + grow_variants(b)) if not rich else [("rich-" + t, x) for (t, x) in [("asis", b)] + grow_variants(b)]
+        for (tag, nb) in variants:
             st["variants"] += 1
             for mode in ("r", "rw"):
                 for hist in HIST[mode]:
